@@ -229,7 +229,12 @@ macro_rules! trace_mod {
                     used += k + 1; i = j + 1;
                 }
                 'c' => {
-                    if k == left && j == cs.len() { let n = it.by_ref().count(); if n != k { f(None); f(None); f(None); } }
+                    if k == left && j == cs.len() {
+                        // count(), fold() and collect() (size_hint-driven preallocation, then next()) must all see exactly what is left
+                        let (lo, hi) = it.size_hint();
+                        let n = match k % 3 { 0 => it.by_ref().count(), 1 => it.by_ref().fold(0usize, |a, x| { drop(x); a + 1 }), _ => { let v: Vec<I::Item> = it.by_ref().collect(); let n = v.len(); drop(v); n } };
+                        if n != k || lo > k || hi.map_or(false, |h| h < k) { f(None); f(None); f(None); }
+                    }
                     else { for _ in 0..k { drop(it.next()); } }
                     used += k; i = j;
                 }
